@@ -293,6 +293,7 @@ func init() {
 			run.Sample(smp)
 		}
 		arithmeticFoundations(c)
+		groupFoundations(c, true)
 	}
 }
 
